@@ -312,7 +312,7 @@ class Ctx:
 
     # --- replay files -------------------------------------------------------------------------
     def write_replay(self, obj, tag="v"):
-        d = os.path.join(ROOT, "replays")
+        d = os.environ.get("VERIF_REPLAY_DIR") or os.path.join(ROOT, "replays")
         os.makedirs(d, exist_ok=True)
         k = len(self.violations)
         p = os.path.join(d, "%s-%s-%d-%d.json" % (self.pid, tag, self.seed, k))
@@ -338,8 +338,10 @@ class Ctx:
                   assumptions=assumptions, wall_s=round(time.time() - self.t0, 2),
                   violations=len(self.violations), known_findings=self.known,
                   repo=REPO, repo_head=repo_head())
-        os.makedirs(os.path.join(ROOT, "evidence"), exist_ok=True)
-        json.dump(ev, open(os.path.join(ROOT, "evidence", self.pid + ".json"), "w"), indent=1, default=str)
+        # VERIF_EVIDENCE_DIR: development runs against a scratch worktree (seeded changes) must not overwrite the evidence of /repo
+        evdir = os.environ.get("VERIF_EVIDENCE_DIR") or os.path.join(ROOT, "evidence")
+        os.makedirs(evdir, exist_ok=True)
+        json.dump(ev, open(os.path.join(evdir, self.pid + ".json"), "w"), indent=1, default=str)
         for k in self.known:
             print("KNOWN-FINDING: property=%s %s" % (self.pid, k))
         for p, note, found in self.violations:
